@@ -81,26 +81,24 @@ impl From<EmptyPopulation> for HErr {
     }
 }
 
-fn parse_two_numbers(s: &str) -> Option<(usize, usize)> {
-    let nums: Vec<usize> = s
-        .split(|c: char| !c.is_ascii_digit())
-        .filter(|t| !t.is_empty())
-        .filter_map(|t| t.parse().ok())
-        .collect();
-    if nums.len() >= 2 {
-        Some((nums[0], nums[1]))
-    } else {
-        None
+/// `TournamentSizeError`'s fields are private: read them from its derived
+/// `Debug` form (`TournamentSizeError { tournament_size: k, population_size: n }`),
+/// which does not depend on the wording of the message.
+fn tournament_kind(debug: &str) -> Kind {
+    let field = |name: &str| -> Option<usize> {
+        let rest = &debug[debug.find(name)? + name.len()..];
+        let digits: String = rest.chars().skip_while(|c| !c.is_ascii_digit()).take_while(char::is_ascii_digit).collect();
+        digits.parse().ok()
+    };
+    match (field("tournament_size"), field("population_size")) {
+        (Some(k), Some(n)) => Kind::TournamentSize { k, n },
+        _ => Kind::Unknown(debug.to_string()),
     }
 }
 
 impl From<TournamentSizeError> for HErr {
     fn from(e: TournamentSizeError) -> Self {
-        // fields are private: read them from the documented message
-        match parse_two_numbers(&e.to_string()) {
-            Some((k, n)) => HErr(Kind::TournamentSize { k, n }),
-            None => HErr(Kind::Unknown(e.to_string())),
-        }
+        HErr(tournament_kind(&format!("{e:?}")))
     }
 }
 
@@ -146,18 +144,17 @@ impl From<DynWeightedError> for HErr {
     }
 }
 
-/// For statically typed chains the error type is deeply nested; every layer's
-/// `Display` delegates to the leaf, so the documented leaf message identifies
-/// the kind.
-fn kind_from_text(s: &str) -> Kind {
-    if s.contains("empty population") {
+/// For statically typed chains the error type is deeply nested; its derived
+/// `Debug` form names the leaf error type, independent of message wording.
+fn kind_from_debug(s: &str) -> Kind {
+    if s.contains("TournamentSizeError") {
+        tournament_kind(s)
+    } else if s.contains("EmptyPopulation") {
         Kind::Empty
-    } else if s.contains("Tournament size") {
-        parse_two_numbers(s).map_or(Kind::Unknown(s.to_string()), |(k, n)| Kind::TournamentSize { k, n })
-    } else if s.contains("zero weight") || s.contains("weight zero") {
+    } else if s.contains("MissingTestCase") {
+        Kind::Unknown(s.to_string())
+    } else if s.contains("ZeroWeight") {
         Kind::ZeroWeight
-    } else if s.contains("couldn't access test case") {
-        parse_two_numbers(s).map_or(Kind::Unknown(s.to_string()), |(t, i)| Kind::MissingCase { total: t, index: i })
     } else {
         Kind::Unknown(s.to_string())
     }
@@ -334,7 +331,9 @@ fn allowed(sel: &Sel, results_len: &[usize], out: &mut Vec<Kind>, soft: &mut boo
         Sel::Lexicase(c) => {
             if n == 0 {
                 out.push(Kind::Empty);
-            } else if n >= 2 {
+            } else {
+                // (with a single individual the current implementation returns it without looking
+                // at its results; reporting the missing result would be just as documented)
                 let min = results_len.iter().copied().min().unwrap_or(0);
                 if min < *c {
                     *soft = true;
@@ -506,7 +505,7 @@ fn must_fail(sel: &Sel, lens: &[usize]) -> bool {
 // ---------------------------------------------------------------------------
 // static chains and arrays
 
-fn check_simple<'a, T: 'a, E: fmt::Display>(
+fn check_simple<'a, T: 'a, E: fmt::Debug>(
     what: &str,
     pop: &'a [T],
     r: Result<Result<&'a T, E>, simcore::Panicked>,
@@ -533,12 +532,12 @@ fn check_simple<'a, T: 'a, E: fmt::Display>(
             }
         }
         Ok(Err(e)) => {
-            let k = kind_from_text(&e.to_string());
+            let k = kind_from_debug(&format!("{e:?}"));
             if !expected.contains(&k) {
                 v.push(Violation::new(
                     "documented-error",
                     format!("unexpected-error:{}", kind_name(&k)),
-                    format!("{what}: reported `{e}` ({k:?}); legitimately reportable: {expected:?}"),
+                    format!("{what}: reported `{e:?}` ({k:?}); legitimately reportable: {expected:?}"),
                 ));
             }
         }
@@ -594,8 +593,8 @@ fn run_chain(shape: u8, w: [u32; 4], tsize: usize, pop: &Vec<i32>, spec: &RngSpe
     macro_rules! go {
         ($sel:expr) => {{
             let r = catch(|| match $sel {
-                Ok(s) => s.select(pop, &mut rng).map_err(|e| e.to_string()),
-                Err(e) => Err(format!("build failed: {e}")),
+                Ok(s) => s.select(pop, &mut rng).map_err(|e| format!("{e:?}")),
+                Err(e) => Err(format!("build failed: {e:?}")),
             });
             check_simple(&what, pop, r, &expected, must_fail)
         }};
@@ -613,7 +612,7 @@ fn run_chain(shape: u8, w: [u32; 4], tsize: usize, pop: &Vec<i32>, spec: &RngSpe
             WeightedPair::new(Weighted::new(t(), w[1]), Weighted::new(Worst, w[2])).expect("small weights")
         )),
         _ => {
-            let r = catch(|| Weighted::new(t(), w[0]).select(pop, &mut rng).map_err(|e| e.to_string()));
+            let r = catch(|| Weighted::new(t(), w[0]).select(pop, &mut rng).map_err(|e| format!("{e:?}")));
             check_simple(&what, pop, r, &expected, must_fail)
         }
     };
